@@ -40,6 +40,10 @@ def candidates(rng, n):
     cands.append(enum(did, [variant("Lower", ser=["mb"]), variant("Upper", ser=["MB"], aci=1), variant("Other")])); did += 1
     cands.append(enum(did, [variant("Exact", ser=["kb"], aci=0), variant("Any", ser=["Kb"]), variant("Tail", ser=["t"])], aci=True)); did += 1
     cands.append(enum(did, [variant("A", ser=["ab", "Ab"]), variant("B", ser=["AB"], aci=1), variant("C", ser=["aB"], aci=1)])); did += 1
+    for eaci in (False, True):
+        for vaci in (2, 1, 0):
+            cands.append(enum(did, [variant("Only", ser=["Start"], aci=vaci)], aci=eaci)); did += 1
+            cands.append(enum(did, [variant("Off", dis=True), variant("Only", aci=vaci), variant("Rest", "tuple", [field("String")], default=True)], aci=eaci)); did += 1
     # a case-insensitive variant declared BEFORE a case-sensitive one that spells one of its case flips: the earlier arm wins
     cands.append(enum(did, [variant("Megabit", ser=["mb"], aci=1), variant("Megabyte", ser=["MB"]), variant("Other")])); did += 1
     cands.append(enum(did, [variant("Other"), variant("Kilo", ser=["Kb"], aci=2), variant("Exact", ser=["KB"], aci=0), variant("Tail", ser=["kb"], aci=0)], aci=True)); did += 1
